@@ -7,7 +7,7 @@
 //
 // Three variants of the same machine: TCP mailboxes, relaxed mailboxes (sender sections
 // restricted to the documented shape) and Go-channel resources (OutputChan -> InputChan, and
-// raftkvs.CustomInChan when that module is linked in, see customch_test.go).
+// raftkvs.CustomInChan, see customch_test.go).
 package c06
 
 import (
@@ -36,7 +36,7 @@ func TestMain(m *testing.M) { vstat.Main(m, "C06") }
 
 const (
 	watchdog    = 20 * time.Second // no resource call may block this long: a time-out aborts, it does not hang
-	drainQuiet  = 3 * time.Second  // final drain gives up after this long without any message
+	drainQuiet  = 3 * time.Second  // final drain gives up after this long without any message (and enough read rounds)
 	commitGrace = 5 * time.Millisecond
 	retryMark   = "network error during commit" // the code's own admission of a connection failure
 )
@@ -51,7 +51,11 @@ const (
 
 func (v variant) String() string { return [...]string{"tcp", "relaxed", "chan"}[v] }
 
-// customIn is set by customch_test.go when the raftkvs module is part of the build.
+// Most cases send bare tokens; some pad every message so that the kernel's socket buffers fill
+// while a receiver is slow, which is what makes a write time out.
+var padChoices = []int{0, 0, 0, 0, 0, 0, 0, 0, 0, 0, 64 << 10, 2 << 20}
+
+// customIn is set by customch_test.go (kept apart: it links the raftkvs module).
 var customIn func(ch <-chan tla.Value, timeout time.Duration) distsys.ArchetypeResource
 
 // ---- log capture ---------------------------------------------------------------------------
@@ -108,10 +112,25 @@ type token struct {
 	bpos  int // index inside its batch
 }
 
-type setAside struct{} // panic sentinel: the case met a commit retry and is not asserted
+// stopCase is a panic sentinel: the case is not executed or asserted any further, and is
+// counted under the given class (a commit retry, or a listed known finding).
+type stopCase struct{ class string }
+
+const (
+	classRetry = "set-aside.commit-retry"
+	// Known finding (signature in known_findings.json): after a relaxed remote mailbox timed out
+	// on a write it drops its connection; messages it had written before are still queued behind
+	// the old connection's handler and are overtaken by messages sent over the new connection.
+	sigRelaxedReorder = "relaxed-reorder-after-write-timeout"
+)
+
+// failer is what the machine needs from *rapid.T / *testing.T.
+type failer interface {
+	Fatalf(format string, args ...any)
+}
 
 type machine struct {
-	t   *rapid.T
+	t   failer
 	v   variant
 	in  string // reader kind for the channel variant
 	nS  int
@@ -139,9 +158,12 @@ type machine struct {
 	partial   []int // [r] TCP: batch being consumed (-1 none)
 	from      [][]bool
 
+	padLen int // bytes of padding per message (0: the bare token)
+	start  time.Time
 	hist   strings.Builder
 	header string
-	dead   bool // set aside: nothing more is executed or asserted
+	dead   string   // non-empty: class under which the case was set aside; nothing more is executed or asserted
+	sendTO [][]bool // [s][r] a write on this link was refused (time-out)
 	hung   bool
 
 	// non-triviality and counters
@@ -160,7 +182,7 @@ func allStacks() string {
 
 func (m *machine) violation(format string, a ...any) {
 	if m.log.sawRetry() {
-		panic(setAside{})
+		panic(stopCase{classRetry})
 	}
 	m.t.Fatalf("C06/%s violated: %s\n---- history (%s)\n%s---- model\n%s---- log tail\n%s",
 		m.v, fmt.Sprintf(format, a...), m.header, m.hist.String(), m.dump(), m.log.tail(3000))
@@ -282,7 +304,7 @@ func (m *machine) send(s, r int) {
 	m.guard("WriteValue", func() {
 		var el distsys.ArchetypeResource
 		if el, err = m.snd[s].Index(m.sIface[s], m.ridx[r]); err == nil {
-			err = el.WriteValue(m.sIface[s], tla.MakeNumber(int32(id)))
+			err = el.WriteValue(m.sIface[s], m.encode(id))
 		}
 	})
 	m.sOpen[s] = true
@@ -298,6 +320,8 @@ func (m *machine) send(s, r int) {
 	case errors.Is(err, distsys.ErrCriticalSectionAborted):
 		m.note("S%d send t%d -> R%d: refused (time-out), section aborts", s, id, r)
 		vstat.Class("timeout.send")
+		vstat.Note("last refused send, log tail", m.log.tail(300))
+		m.sendTO[s][r] = true
 		tk.state = tokAborted
 		m.senderAbort(s, false)
 	default:
@@ -432,11 +456,49 @@ func (m *machine) recv(r int) (got bool) {
 		vstat.Class("timeout.recv-default")
 		return false
 	}
-	if !v.IsNumber() {
-		m.violation("R%d received %v, which no sender ever sent (invented)", r, v)
+	x, ok := m.decode(v)
+	if !ok {
+		m.violation("R%d received %.200s, which no sender ever sent (invented or corrupted)", r, v.String())
 	}
-	m.delivered(r, int(v.AsNumber()))
+	m.delivered(r, x)
 	return true
+}
+
+// A message is its token number, or <<token, padding>> when the case uses large messages
+// (so that socket buffers, not only the mailbox's own queue, can fill up).
+func (m *machine) encode(id int) tla.Value {
+	if m.padLen == 0 {
+		return tla.MakeNumber(int32(id))
+	}
+	return tla.MakeTuple(tla.MakeNumber(int32(id)), padding(m.padLen))
+}
+
+func (m *machine) decode(v tla.Value) (int, bool) {
+	if m.padLen == 0 {
+		if !v.IsNumber() {
+			return 0, false
+		}
+		return int(v.AsNumber()), true
+	}
+	if !v.IsTuple() || v.AsTuple().Len() != 2 {
+		return 0, false
+	}
+	id, pad := v.AsTuple().Get(0), v.AsTuple().Get(1)
+	if !id.IsNumber() || !pad.IsString() || pad.AsString() != padding(m.padLen).AsString() {
+		return 0, false
+	}
+	return int(id.AsNumber()), true
+}
+
+var pads = map[int]tla.Value{}
+
+func padding(n int) tla.Value {
+	if v, ok := pads[n]; ok {
+		return v
+	}
+	v := tla.MakeString(strings.Repeat("0123456789abcdef", n/16))
+	pads[n] = v
+	return v
 }
 
 func (m *machine) delivered(r, x int) {
@@ -472,6 +534,13 @@ func (m *machine) delivered(r, x int) {
 		what := "reordered or an earlier message lost"
 		if tk.pos < next {
 			what = "duplicated"
+		}
+		if m.v == vRelaxed && m.sendTO[s][r] && tk.pos > next && !m.log.sawRetry() {
+			m.note("  ^ overtook t%d, which S%d had sent earlier over a connection it dropped after a write time-out", m.stream[s][r][next], s)
+			if vstat.Known(sigRelaxedReorder) {
+				panic(stopCase{"known." + sigRelaxedReorder})
+			}
+			what = "reordered: overtook messages written before the sender's write time-out; signature " + sigRelaxedReorder
 		}
 		exp := "nothing (all committed messages were already delivered)"
 		if next < len(m.stream[s][r]) {
@@ -731,22 +800,65 @@ func (m *machine) teardown() {
 			}
 		}
 	}
-	var wg sync.WaitGroup
-	all := append(append(append([]distsys.ArchetypeResource(nil), m.snd...), m.rcv...), m.lens...)
-	for _, res := range all {
-		res := res
-		wg.Add(1)
-		go func() { defer wg.Done(); hx.Catch(func() { _ = res.Close() }) }()
+	// Senders first, so that every connection handler of a receiver ends on EOF before the
+	// receiver is told to stop (a handler interrupted by Close leaves its reader goroutine
+	// behind); each group concurrently: a TCP mailbox takes 500 ms to close.
+	closeAll := func(l []distsys.ArchetypeResource) {
+		var wg sync.WaitGroup
+		for _, res := range l {
+			res := res
+			wg.Add(1)
+			go func() { defer wg.Done(); hx.Catch(func() { _ = res.Close() }) }()
+		}
+		tryRun(watchdog, wg.Wait)
 	}
-	tryRun(watchdog, wg.Wait)
+	closeAll(m.snd)
+	if m.v != vChan {
+		time.Sleep(2 * time.Millisecond)
+	}
+	closeAll(append(append([]distsys.ArchetypeResource(nil), m.rcv...), m.lens...))
 	log.SetOutput(io.Discard)
+	// evidence that cases do not leak into each other (listeners, connection handlers, commits)
+	vstat.Note("goroutines alive after the last case of "+m.v.String(), fmt.Sprint(runtime.NumGoroutine()))
 }
 
 // ---- one case ---------------------------------------------------------------------------------
 
+func (m *machine) initModel() {
+	m.stream, m.rcommit, m.secToks = make([][][]int, m.nS), make([][][]int, m.nS), make([][][]int, m.nS)
+	m.consumed, m.sendTO = make([][]int, m.nS), make([][]bool, m.nS)
+	for s := 0; s < m.nS; s++ {
+		m.stream[s], m.rcommit[s], m.secToks[s] = make([][]int, m.nR), make([][]int, m.nR), make([][]int, m.nR)
+		m.consumed[s], m.sendTO[s] = make([]int, m.nR), make([]bool, m.nR)
+	}
+	m.sOpen, m.relSent = make([]bool, m.nS), make([]bool, m.nS)
+	m.commitCh, m.commitAt = make([]chan struct{}, m.nS), make([]time.Time, m.nS)
+	m.inflight, m.redeliver = make([][]int, m.nR), make([][]int, m.nR)
+	m.rOpen, m.lenDirty, m.partial = make([]bool, m.nR), make([]bool, m.nR), make([]int, m.nR)
+	m.from = make([][]bool, m.nR)
+	for r := 0; r < m.nR; r++ {
+		m.partial[r] = -1
+		m.from[r] = make([]bool, m.nS)
+	}
+}
+
+// protect runs f; a stopCase panic ends the case quietly, anything else goes on to the caller.
+func (m *machine) protect(f func()) {
+	defer func() {
+		if x := recover(); x != nil {
+			if sc, ok := x.(stopCase); ok {
+				m.dead = sc.class
+				return
+			}
+			panic(x)
+		}
+	}()
+	f()
+}
+
 func runCase(t *rapid.T, v variant) {
 	vstat.Case()
-	m := &machine{t: t, v: v, log: &caseLog{}}
+	m := &machine{t: t, v: v, log: &caseLog{}, start: time.Now()}
 	log.SetOutput(m.log)
 	m.nS = rapid.IntRange(1, 3).Draw(t, "senders")
 	m.nR = rapid.IntRange(1, 2).Draw(t, "receivers")
@@ -760,26 +872,20 @@ func runCase(t *rapid.T, v variant) {
 		m.in = rapid.SampledFrom(kinds).Draw(t, "reader")
 	}
 	bufSize := rapid.IntRange(minBuf, 3).Draw(t, "bufSize")
+	if v != vChan {
+		m.padLen = rapid.SampledFrom(padChoices).Draw(t, "paddingBytes")
+	}
 	readTO := time.Duration(rapid.IntRange(20, 50).Draw(t, "readTimeoutMs")) * time.Millisecond
 	writeTO := time.Duration(rapid.IntRange(300, 400).Draw(t, "writeTimeoutMs")) * time.Millisecond
 	dialTO := time.Duration(rapid.IntRange(300, 400).Draw(t, "dialTimeoutMs")) * time.Millisecond
-	m.header = fmt.Sprintf("%s%s senders=%d receivers=%d buffer=%d read=%v write=%v dial=%v", v, m.in, m.nS, m.nR, bufSize, readTO, writeTO, dialTO)
+	// swarm parameter: a slow receiver takes only a quarter of its reads, so buffers fill up
+	slow := make([]bool, m.nR)
+	for r := range slow {
+		slow[r] = rapid.IntRange(0, 2).Draw(t, "slowReceiver") == 0
+	}
+	m.header = fmt.Sprintf("%s%s senders=%d receivers=%d buffer=%d read=%v write=%v dial=%v slow=%v padding=%dB", v, m.in, m.nS, m.nR, bufSize, readTO, writeTO, dialTO, slow, m.padLen)
 
-	m.stream, m.rcommit, m.secToks = make([][][]int, m.nS), make([][][]int, m.nS), make([][][]int, m.nS)
-	m.consumed = make([][]int, m.nS)
-	for s := 0; s < m.nS; s++ {
-		m.stream[s], m.rcommit[s], m.secToks[s] = make([][]int, m.nR), make([][]int, m.nR), make([][]int, m.nR)
-		m.consumed[s] = make([]int, m.nR)
-	}
-	m.sOpen, m.relSent = make([]bool, m.nS), make([]bool, m.nS)
-	m.commitCh, m.commitAt = make([]chan struct{}, m.nS), make([]time.Time, m.nS)
-	m.inflight, m.redeliver = make([][]int, m.nR), make([][]int, m.nR)
-	m.rOpen, m.lenDirty, m.partial = make([]bool, m.nR), make([]bool, m.nR), make([]int, m.nR)
-	m.from = make([][]bool, m.nR)
-	for r := 0; r < m.nR; r++ {
-		m.partial[r] = -1
-		m.from[r] = make([]bool, m.nS)
-	}
+	m.initModel()
 
 	defer m.teardown()
 	m.setup(bufSize, readTO, writeTO, dialTO)
@@ -789,22 +895,13 @@ func runCase(t *rapid.T, v variant) {
 	rule := func(f func(t *rapid.T)) func(*rapid.T) {
 		return func(t *rapid.T) {
 			m.t = t
-			defer func() {
-				if x := recover(); x != nil {
-					if _, ok := x.(setAside); ok {
-						m.dead = true
-						return
-					}
-					panic(x)
-				}
-			}()
-			f(t)
+			m.protect(func() { f(t) })
 		}
 	}
 	sender := func(t *rapid.T) int { return rapid.IntRange(0, m.nS-1).Draw(t, "sender") }
 	receiver := func(t *rapid.T) int { return rapid.IntRange(0, m.nR-1).Draw(t, "receiver") }
 	step := func() bool {
-		if m.dead {
+		if m.dead != "" {
 			return false
 		}
 		m.steps++
@@ -818,29 +915,38 @@ func runCase(t *rapid.T, v variant) {
 		}
 	})
 	doRecv := rule(func(t *rapid.T) {
-		r := receiver(t)
+		r, lag := receiver(t), rapid.IntRange(0, 3).Draw(t, "lag")
 		if step() {
+			if slow[r] && lag != 0 {
+				m.note("R%d is slow: not stepped", r)
+				return
+			}
 			m.recv(r)
 		}
 	})
+	doSenderCommit := rule(func(t *rapid.T) {
+		s := sender(t)
+		if step() {
+			m.senderCommit(s)
+		}
+	})
 	actions := map[string]func(*rapid.T){
-		// send and recv are listed twice: traffic should outweigh commits and aborts
-		"send":  doSend,
-		"send'": doSend,
-		"senderCommit": rule(func(t *rapid.T) {
-			s := sender(t)
-			if step() {
-				m.senderCommit(s)
-			}
-		}),
+		// Repeat picks actions uniformly; aliases weight traffic (send, recv x3; senderCommit x2)
+		// above aborts, so that messages actually flow
+		"send":          doSend,
+		"send'":         doSend,
+		"send''":        doSend,
+		"senderCommit":  doSenderCommit,
+		"senderCommit'": doSenderCommit,
 		"senderAbort": rule(func(t *rapid.T) {
 			s := sender(t)
 			if step() {
 				m.senderAbort(s, true)
 			}
 		}),
-		"recv":  doRecv,
-		"recv'": doRecv,
+		"recv":   doRecv,
+		"recv'":  doRecv,
+		"recv''": doRecv,
 		"recvCommit": rule(func(t *rapid.T) {
 			r := receiver(t)
 			if step() {
@@ -875,16 +981,23 @@ func runCase(t *rapid.T, v variant) {
 		endR[r] = rapid.Bool().Draw(t, "lastReceiverSectionCommits")
 	}
 	rule(func(*rapid.T) {
-		if !m.dead {
-			m.finish(endS, endR, readTO)
+		if m.dead == "" {
+			m.finish(endS, endR)
 		}
 	})(t)
 
-	if m.dead || m.log.sawRetry() {
-		// the sender had to retry a commit over a new connection: a connection failure by the
-		// code's own account, outside the property's premise ("absent connection failure")
-		vstat.Class("set-aside.commit-retry")
+	if m.dead == "" && m.log.sawRetry() {
+		m.dead = classRetry
+	}
+	if m.dead != "" {
+		// classRetry: the sender had to retry a commit over a new connection, a connection failure
+		// by the code's own account, outside the property's premise ("absent connection failure");
+		// known.*: a listed finding was met (also counted by vstat.Known under excluded_known)
+		vstat.Class(m.dead)
 		return
+	}
+	if m.padLen > 0 {
+		vstat.Class(fmt.Sprintf("padding.%dKiB", m.padLen>>10))
 	}
 	vstat.Class("variant." + v.String() + m.in)
 	vstat.ClassN("steps", int64(m.steps))
@@ -912,7 +1025,7 @@ func runCase(t *rapid.T, v variant) {
 }
 
 // finish ends every open section, drains every receiver and compares streams.
-func (m *machine) finish(endS, endR []bool, readTO time.Duration) {
+func (m *machine) finish(endS, endR []bool) {
 	m.note("-- end of traffic")
 	m.poll(time.Millisecond)
 	for s := 0; s < m.nS; s++ {
@@ -942,7 +1055,20 @@ func (m *machine) finish(endS, endR []bool, readTO time.Duration) {
 		}
 		return n
 	}
-	last := time.Now()
+	// A message counts as lost when nothing arrived for drainQuiet AND that many fruitless read
+	// rounds went by: the second condition stretches the wait when the whole process is starved
+	// of CPU, so that wall-clock time alone never decides. Padded messages fill the kernel's
+	// socket buffers while a receiver is slow; the sending kernel then probes the closed window
+	// with exponential back-off and may take about as long as the stall lasted to resume
+	// (4.4 s seen under load), so such cases wait at least three times their own duration.
+	quiet, rounds := drainQuiet, 100
+	if m.padLen > 0 {
+		quiet, rounds = 4*drainQuiet, 300
+		if d := 3 * time.Since(m.start); d > quiet {
+			quiet = d
+		}
+	}
+	last, fruitless := time.Now(), 0
 	for outstanding() > 0 || m.anyCommitting() {
 		progress := false
 		for r := 0; r < m.nR; r++ {
@@ -958,10 +1084,12 @@ func (m *machine) finish(endS, endR []bool, readTO time.Duration) {
 			m.poll(time.Millisecond)
 		}
 		if progress {
-			last = time.Now()
+			m.noteDrainWait(time.Since(last))
+			last, fruitless = time.Now(), 0
 			continue
 		}
-		if outstanding() > 0 && time.Since(last) > drainQuiet {
+		fruitless++
+		if outstanding() > 0 && time.Since(last) > quiet && fruitless >= rounds {
 			var lost []string
 			for s := 0; s < m.nS; s++ {
 				for r := 0; r < m.nR; r++ {
@@ -975,7 +1103,7 @@ func (m *machine) finish(endS, endR []bool, readTO time.Duration) {
 					lost = append(lost, fmt.Sprintf("R%d rolled back and never saw again %s", r, toks(m.redeliver[r])))
 				}
 			}
-			m.violation("messages of committed sections never arrived although the receivers were drained for %v without a message: %s", drainQuiet, strings.Join(lost, "; "))
+			m.violation("messages of committed sections never arrived although the receivers were drained for %v (%d fruitless read rounds) without a message: %s", time.Since(last).Round(time.Millisecond), fruitless, strings.Join(lost, "; "))
 		}
 		if outstanding() == 0 && time.Since(last) > watchdog {
 			m.hung = true
@@ -1002,9 +1130,56 @@ func (m *machine) finish(endS, endR []bool, readTO time.Duration) {
 			}
 		}
 	}
-	_ = readTO
+}
+
+// noteDrainWait keeps, as evidence of the drain's margin, the longest time a message that did
+// arrive kept the final drain waiting.
+var longestDrainWait time.Duration
+
+func (m *machine) noteDrainWait(d time.Duration) {
+	if d > longestDrainWait {
+		longestDrainWait = d
+		vstat.Note("final drain: longest wait for a message that did arrive", fmt.Sprintf("%v (%s, padding %d B)", d.Round(time.Millisecond), m.v, m.padLen))
+	}
+	if d > time.Second {
+		if m.padLen > 0 {
+			vstat.Class("drain.waited-over-1s.padded-messages")
+		} else {
+			vstat.Class("drain.waited-over-1s.bare-tokens")
+		}
+	}
 }
 
 func TestC06TCP(t *testing.T)      { rapid.Check(t, func(t *rapid.T) { runCase(t, vTCP) }) }
 func TestC06Relaxed(t *testing.T)  { rapid.Check(t, func(t *rapid.T) { runCase(t, vRelaxed) }) }
 func TestC06Channels(t *testing.T) { rapid.Check(t, func(t *rapid.T) { runCase(t, vChan) }) }
+
+// TestC06RelaxedWriteTimeout is one fixed history (no generation) for the known finding
+// relaxed-reorder-after-write-timeout: one sender, one stopped receiver, 2 MiB messages. The
+// sender sends and commits until a write times out (which, per the statement, only aborts that
+// section), then sends and commits once more; the receiver is then drained. Passes when the
+// order holds, or when the disagreement is the listed known finding.
+func TestC06RelaxedWriteTimeout(t *testing.T) {
+	vstat.Case()
+	m := &machine{t: t, v: vRelaxed, log: &caseLog{}, nS: 1, nR: 1, padLen: 2 << 20, start: time.Now()}
+	log.SetOutput(m.log)
+	m.header = "relaxed senders=1 receivers=1 buffer=1 read=30ms write=300ms dial=300ms padding=2MiB, fixed scenario"
+	m.initModel()
+	defer m.teardown()
+	m.setup(1, 30*time.Millisecond, 300*time.Millisecond, 300*time.Millisecond)
+	m.protect(func() {
+		for i := 0; i < 64 && !m.sendTO[0][0]; i++ {
+			m.send(0, 0)
+		}
+		if !m.sendTO[0][0] {
+			vstat.Class("fixed-scenario.no-write-timeout")
+			t.Log("no write timed out after 64 unread 2 MiB messages: scenario not reached")
+		}
+		m.send(0, 0)
+		m.finish([]bool{true}, []bool{true})
+	})
+	if m.dead != "" {
+		vstat.Class(m.dead)
+		t.Logf("set aside: %s\n%s", m.dead, m.hist.String())
+	}
+}
